@@ -548,7 +548,7 @@ void body(V::Ctx &ctx)
     if (ctx.quick()) {
         plans.push_back({2, 1, all, 1, true, 2});        // every pair of operations, fine-grained steps
         plans.push_back({2, 1, all, 2, false, 2});       // ... and one more preemption at atomic-operation granularity
-        plans.push_back({2, 2, few, 1, true, 1});        // two operations per process
+        plans.push_back({2, 2, "xrdu", 1, true, 1});     // two operations per process
         plans.push_back({3, 1, "xrdu", 2, false, 1});    // three processes
     } else {
         plans.push_back({2, 1, all, 2, true, 2});
